@@ -5,10 +5,13 @@
      _load_multiple_spike_times      spike_order = np.argsort(concat times, kind='stable'); times[spike_order]
      _load_multiple_spike_arrays     assert len(concat) == len(spike_order); concat[spike_order]   (same order reused)
      write_spike_data                amplitudes (and the not-yet-shifted templates, overwritten later)
-     write_spike_clusters            (as repaired on branch fix-c11b) running offsets: coffset += max(spike_clusters) + 1,
+     write_spike_clusters            (as repaired on branches fix-c11b, fix-c11c) running offsets: coffset += n_clu where
+                                     n_clu = max(max(spike_clusters), the ids listed in the probe's cluster_*.tsv files) + 1
+                                     (fix-c11c: a cluster without spikes that has a metadata row keeps an id of its own),
                                      toffset += n_tmp where n_tmp = number of rows of the probe's templates.npy (an INPUT,
-                                     p_ntmpl; np.max(spike_templates) is no longer evaluated), in-place shift of each
-                                     probe's ids, cluster_probes = concat (i * ones(n_clu)), the final assert.
+                                     p_ntmpl; np.max(spike_templates) is no longer evaluated), shift of each
+                                     probe's ids, cluster_probes = concat (i * ones(n_clu)), the final assert
+                                     int(max(spike_clusters)) + 1 <= len(cluster_probes).
                                      Nothing in the code compares n_tmp with the probe's spike_templates: when a spike
                                      names a template >= n_tmp the merge goes through and the shifted id falls into the
                                      next probe's range (modelled as is; Props.C11_template_count_needed)
@@ -16,9 +19,12 @@
                                      (later probe overwrites), field name of the last probe that has it, rows sorted by id,
                                      file written only when the dictionary is not empty
    Where NumPy/Python raises (no probe, a probe without spikes: np.max of an empty array, unequal total lengths,
-   the final assert) the model returns None.  dtypes are not modelled (ids and times are Z). *)
+   the final assert) the model returns None.
+   [merge] computes on Z.  [merge_dt] (end of the file) is the same merge with NumPy's fixed-width integer arithmetic:
+   the dtype of the merged times / cluster ids / template ids chosen by _int_dtype (fix-c11c), .astype() and `+ offset`
+   wrapping modulo 2^bits, OverflowError when the Python-int offset is out of the dtype's bounds. *)
 From Coq Require Import ZArith List Bool.
-From PV Require Import Base.NpSort.
+From PV Require Import Base.NpSort Base.NpSearch.
 Import ListNotations.
 Open Scope Z_scope.
 
@@ -50,6 +56,13 @@ Fixpoint take {X} (l : list X) (order : list nat) : option (list X) :=
               end
   end.
 
+Definition n_meta_files : nat := 3.
+
+(* the cluster ids listed in the probe's cluster_*.tsv files: Merger._metadata_cluster_ids (keys of the dictionaries) *)
+Definition meta_ids (p : probe) : list Z :=
+  flat_map (fun f => match nth f (p_meta p) None with Some mt => map fst (mt_rows mt) | None => [] end)
+           (seq 0 n_meta_files).
+
 Definition concat_times (ps : list probe) : list Z := concat (map p_times ps).
 Definition spike_order (ps : list probe) : list nat := stable_argsort (concat_times ps).
 
@@ -64,14 +77,20 @@ Definition zmax_opt (l : list Z) : option Z :=
 
 Record shifted := mkshift { sh_coff : Z; sh_toff : Z; sh_sc : list Z; sh_st : list Z; sh_cp : list Z }.
 
+(* n_clusters_l: max([int(np.max(sc))] + self._metadata_cluster_ids(subdir)) + 1 *)
+Definition n_clu_of (p : probe) : option Z :=
+  match zmax_opt (p_clu p) with
+  | Some mc => Some (fold_left Z.max (meta_ids p) mc + 1)
+  | None => None
+  end.
+
 (* the loop of write_spike_clusters *)
 Fixpoint sc_loop (i coff toff : Z) (ps : list probe) : option (list shifted) :=
   match ps with
   | [] => Some []
   | p :: r =>
-    match zmax_opt (p_clu p) with
-    | Some mc =>
-        let n_clu := mc + 1 in
+    match n_clu_of p with
+    | Some n_clu =>
         let n_tmp := p_ntmpl p in                      (* zip(..., n_templates_l) *)
         if n_clu <? 0 then None (* np.ones(negative) *) else
         match sc_loop (i + 1) (coff + n_clu) (toff + n_tmp) r with
@@ -116,22 +135,22 @@ Definition meta_file (f : nat) (ps : list probe) (coffs : list Z) : option metat
   | _, _ => None                                          (* `if metadata:` *)
   end.
 
-Definition n_meta_files : nat := 3.
-
-Definition merge (ps : list probe) : option merged :=
+(* merge(), given the concatenated spike times as they are after _concat (ctimes) and the outcome of the loop of
+   write_spike_clusters (sc) *)
+Definition merge_core (ctimes : list Z) (sc : option (list shifted)) (ps : list probe) : option merged :=
   match ps with [] => None (* assert subdirs *) | _ :: _ =>
-  let order := spike_order ps in
-  match take (concat_times ps) order,
+  let order := stable_argsort ctimes in
+  match take ctimes order,
         load_spike_arrays (map p_amps ps) order,
         load_spike_arrays (map p_tmpl ps) order,          (* write_spike_data: same assert, result overwritten *)
-        sc_loop 0 0 0 ps with
+        sc with
   | Some times, Some amps, Some _, Some sh =>
       match load_spike_arrays (map sh_sc sh) order, load_spike_arrays (map sh_st sh) order with
       | Some clu, Some tmpl =>
           let cp := concat (map sh_cp sh) in
           match zmax_opt clu with
           | Some mx =>
-              if mx + 1 =? Z.of_nat (length cp) then
+              if mx + 1 <=? Z.of_nat (length cp) then        (* the last probe may end with ids without spikes *)
                 let coffs := map sh_coff sh in
                 Some (mkmerged times amps tmpl clu cp coffs (map sh_toff sh)
                                (map (fun f => meta_file f ps coffs) (seq 0 n_meta_files)))
@@ -143,8 +162,112 @@ Definition merge (ps : list probe) : option merged :=
   | _, _, _, _ => None
   end end.
 
+Definition merge (ps : list probe) : option merged := merge_core (concat_times ps) (sc_loop 0 0 0 ps) ps.
+
 End Model.
 
 Arguments metatab : clear implicits.
 Arguments probe : clear implicits.
 Arguments merged : clear implicits.
+
+(* ================= fixed-width integers: the dtypes of the id and time arrays =================
+   NumPy integer dtypes as value ranges; .astype(d) between integer dtypes and array arithmetic in d are modular. *)
+Inductive idt := U8 | U16 | U32 | U64 | I8 | I16 | I32 | I64.
+Definition dt_bits (d : idt) : Z :=
+  match d with U8 | I8 => 8 | U16 | I16 => 16 | U32 | I32 => 32 | U64 | I64 => 64 end.
+Definition dt_signed (d : idt) : bool := match d with I8 | I16 | I32 | I64 => true | _ => false end.
+Definition dt_min (d : idt) : Z := if dt_signed d then - 2 ^ (dt_bits d - 1) else 0.
+Definition dt_max (d : idt) : Z := if dt_signed d then 2 ^ (dt_bits d - 1) - 1 else 2 ^ dt_bits d - 1.
+Definition fits (d : idt) (v : Z) : bool := (dt_min d <=? v) && (v <=? dt_max d).
+(* the value after a C cast to d / after an overflowing operation in d *)
+Definition wrap (d : idt) (v : Z) : Z := dt_min d + (v - dt_min d) mod 2 ^ dt_bits d.
+
+(* np.min_scalar_type(v) for a Python int v: the smallest unsigned type for v >= 0, the smallest signed one for v < 0;
+   None = object dtype (does not fit 64 bits) *)
+Definition min_scalar_type (v : Z) : option idt :=
+  if 0 <=? v then
+    if v <=? dt_max U8 then Some U8 else if v <=? dt_max U16 then Some U16 else
+    if v <=? dt_max U32 then Some U32 else if v <=? dt_max U64 then Some U64 else None
+  else
+    if dt_min I8 <=? v then Some I8 else if dt_min I16 <=? v then Some I16 else
+    if dt_min I32 <=? v then Some I32 else if dt_min I64 <=? v then Some I64 else None.
+
+(* np.promote_types on integer dtypes; None = float64 (uint64 with a signed type) *)
+Definition promote (a b : idt) : option idt :=
+  match dt_signed a, dt_signed b with
+  | false, false | true, true => Some (if dt_bits a <? dt_bits b then b else a)
+  | true, false => if dt_bits b <? dt_bits a then Some a else
+                   match b with U8 => Some I16 | U16 => Some I32 | U32 => Some I64 | _ => None end
+  | false, true => if dt_bits a <? dt_bits b then Some b else
+                   match a with U8 => Some I16 | U16 => Some I32 | U32 => Some I64 | _ => None end
+  end.
+
+(* phylib.io.merge._int_dtype(dtype, max_value) *)
+Definition int_dtype (d : idt) (mx : Z) : option idt :=
+  if mx <=? dt_max d then Some d else
+  match min_scalar_type mx with Some b => promote d b | None => None end.
+
+(* arr.astype(d) + off with a Python int off: OverflowError when off is out of bounds for d, otherwise computed in d *)
+Definition shift_dt (d : idt) (off : Z) (ids : list Z) : option (list Z) :=
+  if fits d off then Some (map (fun c => wrap d (wrap d c + off)) ids) else None.
+
+(* max(int(np.max(a)) for a in arrs): ValueError on an empty array *)
+Fixpoint zmax_all (ls : list (list Z)) : option Z :=
+  match ls with
+  | [] => None
+  | l :: r => match zmax_opt l, r with
+              | Some m, [] => Some m
+              | Some m, _ :: _ => match zmax_all r with Some m' => Some (Z.max m m') | None => None end
+              | None, _ => None
+              end
+  end.
+
+Section ModelDt.
+Context {A V F : Type}.
+Notation probe := (probe A V F).
+Notation merged := (merged A V F).
+
+(* sum(n_clusters_l) *)
+Fixpoint total_clu (ps : list probe) : option Z :=
+  match ps with
+  | [] => Some 0
+  | p :: r => match n_clu_of p, total_clu r with Some n, Some t => Some (n + t) | _, _ => None end
+  end.
+
+(* the loop of write_spike_clusters in the dtypes cd (clusters) and td (templates) *)
+Fixpoint sc_loop_dt (cd td : idt) (i coff toff : Z) (ps : list probe) : option (list shifted) :=
+  match ps with
+  | [] => Some []
+  | p :: r =>
+    match n_clu_of p with
+    | Some n_clu =>
+        let n_tmp := p_ntmpl p in
+        match shift_dt cd coff (p_clu p), shift_dt td toff (p_tmpl p) with
+        | Some sc, Some st =>
+            if n_clu <? 0 then None else
+            match sc_loop_dt cd td (i + 1) (coff + n_clu) (toff + n_tmp) r with
+            | Some rest => Some (mkshift coff toff sc st (repeat i (Z.to_nat n_clu)) :: rest)
+            | None => None
+            end
+        | _, _ => None
+        end
+    | None => None
+    end
+  end.
+
+(* merge() on arrays whose first probe stores times / cluster ids / template ids in the dtypes t0 / c0 / i0;
+   returns the merged arrays and the dtypes of the merged spike_times, spike_clusters, spike_templates files *)
+Definition merge_dt (t0 c0 i0 : idt) (ps : list probe) : option (merged * (idt * idt * idt)) :=
+  match zmax_all (map (@p_times A V F) ps), total_clu ps with
+  | Some tmax, Some nclu =>
+      match int_dtype t0 tmax, int_dtype c0 (nclu - 1), int_dtype i0 (zsum (map (@p_ntmpl A V F) ps) - 1) with
+      | Some td, Some cd, Some id =>
+          match merge_core (map (wrap td) (concat_times ps)) (sc_loop_dt cd id 0 0 0 ps) ps with
+          | Some m => Some (m, (td, cd, id))
+          | None => None
+          end
+      | _, _, _ => None
+      end
+  | _, _ => None
+  end.
+End ModelDt.
